@@ -112,8 +112,17 @@ def run(chk):
         if rng.random() < 0.3:
             axes[:] = axes[0]
         c = gen.dy(rng.uniform(-5, 5, 3), 4)
-        pts = gen.dy(c + rng.uniform(-1.5, 1.5, (npts, 3)) * axes, 16)
+        # any size: a third of the scenarios (axes, centre and points) are rescaled exactly by a power of two between 2^-32 and 2^8
+        if rng.random() < 0.34:
+            u = 2.0 ** int(rng.integers(-32, 9))
+            axes, c = axes * u, c * u
+        pts = gen.dy(c + rng.uniform(-1.5, 1.5, (npts, 3)) * axes, 16) if axes[0] >= 2.0 ** -3 else c + gen.dy(rng.uniform(-1.5, 1.5, (npts, 3)), 16) * axes
         pts[: npts // 5, int(rng.integers(3))] = c[int(rng.integers(3))]
+        # points at a controlled relative distance (1e-8 .. 1e-1) inside and outside the surface, in random directions
+        nb = npts // 3
+        dirs = rng.normal(size=(nb, 3)); dirs /= np.linalg.norm(dirs, axis=1)[:, None]
+        rel = 1.0 + rng.choice([-1.0, 1.0], nb) * 10.0 ** rng.uniform(-8, -1, nb)
+        pts = np.vstack([pts, c + dirs * axes * rel[:, None], c + dirs * axes[0] * rel[:, None]])
         sph = coxeter.shapes.Sphere(axes[0], c)
         ell = coxeter.shapes.Ellipsoid(axes[0], axes[1], axes[2], c)
         gs, ge = np.asarray(sph.is_inside(pts), bool), np.asarray(ell.is_inside(pts), bool)
